@@ -15,12 +15,12 @@ import (
 )
 
 type WitnessEntry struct {
-	Obligation string `json:"obligation"`
-	File       string `json:"file"`
-	PkgDir     string `json:"pkgdir"`
+	Obligation string   `json:"obligation"`
+	File       string   `json:"file"`
+	PkgDir     string   `json:"pkgdir"`
 	Prefixes   []string `json:"prefixes,omitempty"` // generic scenario: any obligation whose name starts with one of these
-	Probe      string `json:"probe,omitempty"` // property id: run on every check of that property (bounded test of an assumed clause)
-	Assumes    string `json:"assumes,omitempty"`
+	Probe      string   `json:"probe,omitempty"`    // property id: run on every check of that property (bounded test of an assumed clause)
+	Assumes    string   `json:"assumes,omitempty"`
 }
 
 // runProbes: assumed clauses that the generator cannot check (executor-level summaries) are
